@@ -176,7 +176,10 @@ def treeTags (ts : List T) : List String :=
   tagIf (ts.any fun t => t.kids.length > 3 || anyMultif t) "multif" ++
   tagIf (edges.any (·.len == 0)) "zerolen" ++ tagIf (edges.any (·.len == NIL)) "nolen" ++
   tagIf (edges.any fun e => e.len != NIL && e.len != 0) "haslen" ++
-  tagIf (edges.any (·.sup != NIL)) "hassup" ++ tagIf (ts.any fun t => t.name != "") "rootname" ++
+  tagIf (edges.any (·.sup != NIL)) "hassup" ++
+  -- a support / length that needs more than 6 decimals (a writer that rounds to 1e-6 loses it)
+  tagIf (edges.any fun e => e.sup != NIL && (e.sup * 1000000).den != 1) "fine-support" ++
+  tagIf (edges.any fun e => e.len != NIL && (e.len * 1000000).den != 1) "fine-length" ++ tagIf (ts.any fun t => t.name != "") "rootname" ++
   tagIf (ts.any fun t => t.kids.any fun et => et.2.isLeaf) "tipatroot" ++
   tagIf (ts.any fun t => t.kids.length == 1) "tiproot"
 
